@@ -91,7 +91,7 @@ type world struct {
 	unknown cid.Cid
 }
 
-var identNames = []string{"A", "B", "C", "D"}
+var identNames = []string{"A", "B", "C", "D", "E", "F"}
 
 func newWorld() *world {
 	api, dag := newAPI()
@@ -222,6 +222,7 @@ type histRun struct {
 	forks, merges, tiesPresent, boundedJoins, denied, panics int
 	nEntries                                                 int
 	inImpl                                                   bool // true while a library call is executing
+	noOracle                                                 bool // replayed copy used as an oracle: no nested oracles
 	unbounded                                                map[int]bool
 	joinFailed                                               map[int]bool
 }
@@ -519,6 +520,9 @@ func (h *histRun) exec() {
 						h.fail("C06", "failed-join-unchanged", "C06:failed-join-changed-log", "a failed join changed the log", i)
 					}
 				} else {
+					if o.Size >= 0 && !h.noOracle {
+						h.oracle16(o, i)
+					}
 					if check16 {
 						got := hashesOf(rep.log.Values().Slice())
 						if !eqStrings(got, hashesOf(want16)) {
@@ -1078,3 +1082,49 @@ func (h *histRun) coq() string {
 var _ = cbornode.DecodeBlock
 var _ = entry.NewOrderedMap
 var _ = rand.Int
+
+
+// oracle16: "the linearisation the unbounded merge would have produced" is obtained by replaying
+// the whole history prefix on a fresh world (identities and hence CIDs are deterministic) with
+// the bounded join replaced by the unbounded one.
+func (h *histRun) oracle16(o hop, i int) {
+	ops := append([]hop{}, h.ops[:i]...)
+	u := o
+	u.Size = -1
+	ops = append(ops, u)
+	h2 := &histRun{gen: replayGen(ops), w: newWorld(), noOracle: true}
+	h2.exec()
+	if len(h2.obs) != len(ops) || h2.obs[len(ops)-1].Class != "ok" {
+		return
+	}
+	full := h2.obs[len(ops)-1].Values
+	want := full
+	if o.Size < len(full) {
+		want = full[len(full)-o.Size:]
+	}
+	rep := h.w.reps[o.R]
+	got := hashesOf(rep.log.Values().Slice())
+	total := rep.sort == "hash" || !hasTies(h.w.created)
+	ok := eqStrings(got, want)
+	if !total {
+		ok = eqStrings(sortedCopy(got), sortedCopy(want))
+	}
+	if !ok {
+		key := "C16:differs-from-unbounded-merge"
+		if o.R == o.Src || h.w.reps[o.R].logID != h.w.reps[o.Src].logID {
+			// Join returns early for the same instance / a foreign log id, before the size bound is applied
+			key = "C16:no-trim-on-self-or-foreign-id-join"
+		}
+		h.fail("C16", "bounded-join-vs-unbounded", key,
+			fmt.Sprintf("Join(size=%d) left %v, the last entries of the unbounded merge are %v", o.Size, got, want), i)
+		return
+	}
+	// heads = unreferenced among the kept entries
+	kept := rep.log.Values().Slice()
+	if hd := sortedCopy(hashesOf(rep.log.Heads().Slice())); !eqStrings(hd, unreferenced(kept)) {
+		h.fail("C16", "bounded-join-heads", "C16:wrong-heads", fmt.Sprintf("heads=%v, unreferenced among kept=%v", hd, unreferenced(kept)), i)
+	}
+	if !eqStrings(sortedCopy(rep.log.GetEntries().Keys()), sortedCopy(got)) {
+		h.fail("C16", "bounded-join-entries", "C16:entries-not-values", "entry index differs from Values() after a bounded join", i)
+	}
+}
